@@ -7,7 +7,7 @@ import buildlib
 PIECES = ["int", "long", "float", "bit", "boolean", "string", "char", "qubit", "void", "function", "return", "if", "else",
           "for", "while", "measure", "reset", "final", "echo", "class", "new", "null", "true", "false", "this", "super",
           "main", "x", "y1", "_a", "foo_bar", "q", "0", "1", "42", "007", "99999999999999999999", "2147483648", "9223372036854775808L", "[-", "3f", "1.5f", "2.f", "10L", "0b", "1b", "2b", "12b", "1.5",
-          "\"str\"", "\"a b\"", "\"a\nb\"", "\"//\"", "\"\"", "'c'", "'\n'", "'''", "'ab'", "'", "\"unterminated",
+          "\"str\"", "\"a b\"", "\"a\nb\"", "\"a\r\nb\"", "\"\r\"", "\"x\r\n\r\ny\"", "'\r'", "\"t\tb\"", "\"//\"", "\"\"", "'c'", "'\n'", "'''", "'ab'", "'", "\"unterminated",
           "=", "==", "!", "!=", "+", "++", "-", "--", "->", "*", "/", "%", ">", ">=", "<", "<=", "&", "&&", "|", "||", "^", "~",
           "?", ":", ".", ";", ",", "@", "(", ")", "{", "}", "[", "]", "#", "$", "\\", "`",
           " ", "  ", "\t", "\n", "\r\n", "\r", "\x0b", "\x0c", "// comment\n", "// c", "//\n", "/", "/ /", "\x00", "\x7f", "\x80", "\xff", "é"]
